@@ -390,6 +390,9 @@ def generate(run_seed, tier):
                 victim = wl.choice(g.used) if g.used and wl.random() < 0.7 else target
                 tasks[t2].append({"op": "drop", "id": victim})
                 dropped.add(victim)
+    if wl.random() < (0.03 if tier == "quick" else 0.06):
+        t = wl.randrange(ntasks)
+        tasks[t].insert(wl.randint(0, len(tasks[t])), {"op": "churn", "n": wl.choice([300, 700, 1100])})
     total = sum(len(t) for t in tasks)
     # builds must stay in id order for refs to resolve: schedule interleaves tasks, unresolved refs are no-ops
     schedule = [sc.randrange(ntasks) for _ in range(total)] if sc.random() < 0.7 else []
@@ -624,6 +627,13 @@ def _run(plan, inst, log, label):
         elif kind == "purge":
             inst.ns["Pregex"].purge()
             log.add("purge")
+        elif kind == "churn":
+            # "long-lived process": n further distinct objects are built in this module instance (part of the plan, so the
+            # run replays); the rebuild oracle's fresh instance has not seen them
+            from checks import c03
+            c03.churn(inst, op["n"])
+            stats["churn_objects"] = stats.get("churn_objects", 0) + op["n"]
+            log.add("churn", op["n"])
         elif kind == "drop":
             # the object dies (unless an iterator or another pool entry still holds it): later objects may
             # be allocated at its address
@@ -794,7 +804,7 @@ EVIDENCE = {
     "measure": "(builder, spelling, sharing pattern {fresh, reused, same-object-twice}, operand compiled?, operand iterated?, "
                "outcome class) plus (use op, compiled?, iterated?)",
     "probes": ["drops", "aliases", "shortcut_self", "same_object_twice", "operand_compiled", "operand_iterated", "rebuilt",
-               "build_exceptions", "snapshots_checked", "shim_configs"],
+               "build_exceptions", "snapshots_checked", "shim_configs", "churn_objects"],
     "fault_kinds": [],
     "components": {
         "real": ["all of pregex", "re", "fresh module instances (every pregex module re-executed) for the rebuild oracle"],
